@@ -1421,6 +1421,22 @@ def _m_random(ctx):
     return r
 
 
+import itertools
+
+
+class RepeatModel(object):
+    """itertools.repeat(value[, times]) (E-ITER): `times` None = endless."""
+
+    def __init__(self, value, times):
+        self.value = value
+        self.times = times
+
+
+@register(itertools.repeat)
+def _m_repeat(ctx, value, times=None):
+    return RepeatModel(value, times)
+
+
 def builtin_method_on_sobj(obj, name, raw):
     """Builtin slot methods reached through super() / class lookup on an SObj."""
     from .interp import SObj
